@@ -607,6 +607,18 @@ func (m *obsModel) observe(n *e1Node, e *logEntry, outs []outMsg, before *priv) 
 	// ---- C14: what was announced is what happened (membership seen by clients = membership held) ----
 	m.announcementConsistency(e, outs, before, after, actor)
 
+	// ---- C13: an invitation is for the channel as it existed; it must not outlive it ----
+	for ck := range before.Chans {
+		if _, still := after.Chans[ck]; still {
+			continue
+		}
+		for k, sa := range after.Sess {
+			if contains(sa.Invited, ck) {
+				r.violate("C13", "unprivileged-effect", "invitation-outlives-channel", fmt.Sprintf("index %d (%s): channel %s ceased to exist but session %d keeps an invitation to it (it would admit the session to a later invite-only channel of that name)", e.Index, descr(e), ck, k[0]-off))
+			}
+		}
+	}
+
 	// ---- C13: privileged transitions ----
 	if !isLink {
 		m.checkTransition(e, in, cmd, actor, before, after, outs)
